@@ -136,6 +136,11 @@ def grid():
         for steps in range(0, length + 2):
             out.append({"adapter": "any_iter", "outer": outer, "container": "logged", "items": items, "length": length,
                         "steps": steps})
+    for outer, container, items, length in itertools.product(("plain", "coroutine"), ("callable-list", "callable-aiter"),
+                                                             ("plain", "coroutine"), (0, 1, 3)):
+        for steps in range(0, length + 2):
+            out.append({"adapter": "any_iter", "outer": outer, "container": container, "items": items,
+                        "length": length, "steps": steps})
     for items, length in itertools.product(("coroutine", "object", "suspending", "futurelike", "gencoro"), range(0, 7)):
         for container in ("list", "iter", "dual", "logged"):
             for steps in range(0, length + 2):
@@ -188,6 +193,28 @@ def check_grid(case):
                 return results()
 
         container = Dual()
+    elif case["container"] == "callable-list":
+        # a collection object that can ALSO be called (an Enum-like class, a query object with __call__): it is
+        # given as the iterable it is - nobody asked for it to be called
+        class CallableRows(list):
+            def __call__(self, *args, **kwargs):
+                log.append(("called-the-iterable",))
+                return ["the result of calling it"]
+
+        container = CallableRows(wrapped)
+    elif case["container"] == "callable-aiter":
+        class CallableStream:
+            def __aiter__(self):
+                async def rows():
+                    for w in wrapped:
+                        yield w
+                return rows()
+
+            def __call__(self, *args, **kwargs):
+                log.append(("called-the-iterable",))
+                return ["the result of calling it"]
+
+        container = CallableStream()
     elif case["container"] == "iter":
         container = iter(list(wrapped))
     else:
@@ -282,7 +309,9 @@ def apply_cases(draw):
     return {"adapter": "apply", "pos": draw(st.lists(kinds, max_size=3)),
             "kw": draw(st.lists(st.tuples(st.sampled_from(["a", "b", "c"]), kinds), max_size=3,
                                 unique_by=lambda t: t[0])),
-            "raises": draw(st.booleans()), "returns": draw(st.sampled_from(["tuple", "tuple", "awaitable"]))}
+            "raises": draw(st.booleans()), "returns": draw(st.sampled_from(["tuple", "tuple", "awaitable"])),
+            # the argument at this place (positional ones first) fails when it is awaited
+            "fails_at": draw(st.one_of(st.none(), st.none(), st.integers(0, 5)))}
 
 
 def check_apply(case):
@@ -304,9 +333,30 @@ def check_apply(case):
             return shared_vals[n]
 
     shared = Shared()
-    pos = [shared if k == "shared" else wrap(ctx, k, v, log, ("pos", i))
+    arg_boom = KeyError("this argument failed")
+
+    class Failing:
+        def __init__(self, tag):
+            self.tag = tag
+
+        def __await__(self):
+            log.append(("await", self.tag))
+            raise arg_boom
+            yield  # pragma: no cover
+
+    fails_at = case.get("fails_at")
+    if fails_at is not None and fails_at >= len(case["pos"]) + len(case["kw"]):
+        fails_at = None
+    if fails_at is not None:
+        case = dict(case, pos=list(case["pos"]), kw=[list(p) for p in case["kw"]])
+        if fails_at < len(case["pos"]):
+            case["pos"][fails_at] = "failing"
+        else:
+            case["kw"][fails_at - len(case["pos"])][1] = "failing"
+    pos = [shared if k == "shared" else Failing(("pos", i)) if k == "failing" else wrap(ctx, k, v, log, ("pos", i))
            for i, (k, v) in enumerate(zip(case["pos"], pos_vals))]
-    kw = {name: shared if k == "shared" else wrap(ctx, k, kw_vals[name], log, ("kw", name)) for name, k in case["kw"]}
+    kw = {name: shared if k == "shared" else Failing(("kw", name)) if k == "failing"
+          else wrap(ctx, k, kw_vals[name], log, ("kw", name)) for name, k in case["kw"]}
     # expected values / await log: arguments are awaited one by one in argument order
     expected_log, n_shared = [], 0
     for i, k in enumerate(case["pos"]):
@@ -344,6 +394,19 @@ def check_apply(case):
         outcome = run(ctx, a.apply(f, *pos, **kw))
         close_orphans(ctx)
     close_unawaited(pos + list(kw.values()))
+    if fails_at is not None:
+        # an argument that fails ends the call there and then: nothing behind it is awaited, the function is not
+        # called, the caller gets the argument's own exception
+        upto = next(i for i, e in enumerate(expected_log)
+                    if e == ("await", ("pos", fails_at) if fails_at < len(case["pos"])
+                             else ("kw", case["kw"][fails_at - len(case["pos"])][0]))) + 1
+        if log != expected_log[:upto]:
+            raise Violation("C19/apply/went-on-after-a-failing-argument", f"{case}: {log}")
+        if seen:
+            raise Violation("C19/apply/function-called-although-an-argument-failed", f"{case}")
+        if outcome[0] != "raise" or outcome[1] is not arg_boom:
+            raise Violation("C19/apply/exception-not-propagated", f"{case}: {outcome!r}")
+        return {"evaluations": 1, "nontrivial": ["x"] if upto < len(expected_log) - 1 else []}
     if len(shared_vals) != n_shared and log == expected_log[:len(log)]:
         raise Violation("C19/apply/await-order", f"{case}: reusable awaitable awaited {len(shared_vals)} times for "
                                                   f"{n_shared} parameters")
